@@ -61,6 +61,12 @@ def build_findings(ctx):
         return os.path.basename(f), ("refutation checks" if rc == 0 else "no longer compiles (defect repaired or model changed)")
 
     files = sorted(glob.glob(os.path.join(vlib.COQ, "Findings", "F_C07_*.v")))
+    with vlib.Lock("build"):
+        ok, lg, dt = vlib.coq_make(["Proofs/C07Examples.vo"])   # the concrete histories the witnesses use
+    if not ok:
+        ctx.extra["findings_refuted_in_coq"] = {"Proofs/C07Examples.v": "does not compile"}
+        ctx.tie_breaks.append(dict(what="Proofs/C07Examples.v (non-vacuity examples) no longer compiles", detail=lg[-3000:]))
+        return
     with ThreadPoolExecutor(max_workers=4) as ex:
         ctx.extra["findings_refuted_in_coq"] = dict(ex.map(one, files))
 
@@ -75,7 +81,7 @@ RULE = ("scenarios of one swap driven through the real SwapService: the shared d
 
 def run(ctx):
     build_findings(ctx)
-    n = 215 if ctx.quick else 1500
+    n = 215 if ctx.quick else 900
     d = ctx.harness("fsm", args=["-n", n] + ARGS)
     if d is None:
         return
